@@ -21,7 +21,10 @@ EXPLANATION = (
     "copy and publishes it as its last step; a task must not write after only column-*defining* operations "
     "(tree.fit) while sibling tasks can still reject the batch. (R17.3) the row-aligned history arrays are "
     "published together: nothing that can raise lies between the first and the last store of the group. (R17.4) "
-    "warm_start computes its mapping before the first write. Decides the structural clause 'every exception that "
+    "warm_start computes its mapping before the first write. (R17.5) the facade rejects decisions / rewards / "
+    "contexts of unequal length before anything is touched: the length checks are judged together with the "
+    "conditions under which they are reached (only a single decision with a Series of features may skip the "
+    "contexts check). Decides the structural clause 'every exception that "
     "depends on argument validity or column compatibility is raised before any state changes'.")
 ASSUMPTIONS = [
     "exceptions that do not depend on column compatibility (singular matrices with lambda=0, k-means with fewer "
